@@ -1,8 +1,11 @@
 SPECIFICATION Spec
 CONSTANTS
   SectionOrder <- Order2
-  Keys <- Keys2
+  Keys <- Keys1
   ValueClasses <- AllClasses
-  MaxKeys = 2
+  RawAlphabet <- NoAlpha
+  RawLen = 0
+  RawPrefixes <- NoPrefix
+  MaxKeys = 1
 INVARIANT Emit
 CHECK_DEADLOCK FALSE
